@@ -270,6 +270,23 @@ Theorem C08_zero_block_unrolls_partial :
 Proof. exact zero_block_unrolls. Qed.
 Print Assumptions C08_zero_block_unrolls_partial.
 
+(* and with a counter: `c FOR count` over such lines is replaced by the body written out count times with the counter
+   replaced by 1 .. count *)
+Theorem C08_counter_block_unrolls_partial :
+  forall cfg pre c forw es body rofw skip rest syms v,
+    Forall pline_ok pre -> is_label c ->
+    t_typ forw = tokText -> tok_is_pseudo forw = true -> lower_is (t_val forw) "for" = true -> Forall plain_tok es ->
+    front_symbols pre = Some syms ->
+    expand_and_evaluate (filter noncomment es) (with_constants cfg syms) = Some (EOk v) ->
+    Forall cnt_bline body ->
+    t_typ rofw = tokText -> tok_is_pseudo rofw = true -> lower_is (t_val rofw) "for" = false -> lower_is (t_val rofw) "rof" = true ->
+    Forall plain_tok skip -> Forall nonterm rest ->
+    let out := flat_map pl_out pre ++ flat_map (fun j => map (subst_body c [] j) (flat_map bl_toks body)) (nseq 1 (Z.to_nat v)) ++ rest ++ [tEOF] in
+    unrolls cfg 0 out out ->
+    unrolls cfg 1 (flat_map pl_toks pre ++ (mkT tokText c :: forw :: es ++ [nlt]) ++ flat_map bl_toks body ++ rofw :: skip ++ (nlt :: rest ++ [tEOF])) out.
+Proof. exact counter_block_unrolls. Qed.
+Print Assumptions C08_counter_block_unrolls_partial.
+
 (* missing: that the token-level relation `unrolls` holds between the rendering of an abstract program and the
    rendering of its unrolling (Render.unroll) for every program - each instance is a finite derivation like the
    example's - and the composition with the reference meaning.  These are decided on every run by the correspondence:
